@@ -129,14 +129,22 @@ func (m *mux) Vars(r *http.Request) map[string]string {
 	if len(params.Keys) == 0 {
 		return nil
 	}
+	// The router matches the escaped path (URL.RawPath) when the URL has one
+	// and the already decoded URL.Path otherwise: the values need decoding in
+	// the first case only.
+	escaped := r.URL.RawPath != ""
 	vars := make(map[string]string, len(params.Keys))
 	for i, k := range params.Keys {
+		v := params.Values[i]
+		if escaped {
+			v = unescape(v)
+		}
 		if k == "*" {
 			wildcard := m.wildcards[r.Method+"::"+ctx.RoutePattern()]
-			vars[wildcard] = unescape(params.Values[i])
+			vars[wildcard] = v
 			continue
 		}
-		vars[k] = unescape(params.Values[i])
+		vars[k] = v
 	}
 	return vars
 }
